@@ -2,7 +2,7 @@
    kind = property*100 + sub-model.  [run] = what the model says the implementation must
    output on this input; [mon] = the property's monitor applied to the implementation's own
    observed output. *)
-From RainV Require Import Lib Tier Geometry SectionIO Meta Paths Wire Stree AddrList Cache Tracker Announcer Picker Ram InfoDl Magnet Admission PieceDl Leech MetaSess Life Registry Resume Priv Mse Owner ConnLimit.
+From RainV Require Import Lib Tier Geometry SectionIO Meta Paths Wire Stree AddrList Cache Tracker Announcer Picker PickerWs Ram InfoDl Magnet Admission PieceDl Leech MetaSess Life Registry Resume Priv Mse Owner ConnLimit.
 
 Definition run (kind : Z) (inp : list Z) : list Z :=
   match kind with
@@ -29,6 +29,8 @@ Definition run (kind : Z) (inp : list Z) : list Z :=
   | 704 => run_str_funcs inp
   | 901 => run_picker inp
   | 902 => tags_picker inp
+  | 903 => run_picker_ws inp
+  | 904 => tags_picker_ws inp
   | 1101 => run_writer inp
   | 1102 => run_reader inp
   | 1103 => run_reader inp
@@ -90,6 +92,7 @@ Definition mon (kind : Z) (inp obs : list Z) : bool :=
   | 703 => mon_tar_target inp obs
   | 704 => list_eqb_Z (run_str_funcs inp) obs
   | 901 => list_eqb_Z (run_picker inp) obs
+  | 903 => list_eqb_Z (run_picker_ws inp) obs
   | 1101 => mon_writer inp obs
   | 1102 => mon_reader inp obs
   | 1103 => list_eqb_Z (run_reader inp) obs
